@@ -108,6 +108,8 @@ impl Cov {
 pub struct Meta {
     pub level: &'static str,
     pub rule: &'static str,
+    /// lanes / hot spots added on top of the base rule (see DESIGN 12.5)
+    pub lanes: &'static str,
     pub triple_measure: &'static str,
     pub item_measure: &'static str,
     pub assumptions: &'static [&'static str],
